@@ -175,8 +175,10 @@ QUERIES = [F('app', V('Q1'), V('Q2'), L([C(1), C(2), C(3)])), F('mem', V('Q1'), 
            F('t7', V('Q1')), F('m', V('Q1')),
            # dynamic facts that contain variables (every use works on its own renamed copy)
            F('same', A('a'), V('Q1')), F('same', A('b'), V('Q1')), F('same', V('Q1'), A('c')), F('dynp', V('Q1')),
-           F('dyn2', V('Q1'), C(7)), F('t8', V('Q1'), V('Q2'))]
-TRIPLE_SUBSET = [0, 2, 4, 8, 11, 12, 13, 14, 16]
+           F('dyn2', V('Q1'), C(7)), F('t8', V('Q1'), V('Q2')),
+           # ground uses of a fact with a repeated variable that need different bindings of it
+           F('same', A('a'), A('a')), F('same', A('b'), A('b')), F('dyn2', F('f', C(1)), C(1)), F('dyn2', F('f', C(2)), C(2))]
+TRIPLE_SUBSET = [0, 4, 8, 11, 12, 14, 17, 18, 19]
 DYNAMIC_B = [F('same', V('S'), V('S')), F('dynp', ('v', ('_', 1))), F('dynp', A('k')), F('dyn2', F('f', V('D')), V('D'))]
 
 
